@@ -12,14 +12,16 @@ EXTRA_COQ_DIRS = ('C03',)
 COQ_HEADER = 'From V Require Import Common.Num C03.Model C04.Model.\nOpen Scope Q_scope.'
 CASE_TIMEOUT = 60
 RULE = ('the VLE cases of C03 (every specification pair; stubbed solvers with adversarial outputs and real solvers replayed) compared on flows AND T, P; '
-        'plus compute_phase_fraction_2N.py_func on dyadic (z1, z2, K1, K2) incl. K = 1 (zero denominator) against the Gallina closed form. '
+        'plus compute_phase_fraction_2N.py_func on dyadic (z1, z2, K1, K2) incl. K = 1 (zero denominator) against the Gallina closed form; '
+        'plus one application of xVlogK_iter_2n / xVlogK_iter (with xy.py_func) with np.exp / np.log replaced in the module namespace by seeded rational stand-ins, '
+        'rational gamma / phi models and (n != 2) a table Rachford-Rice solver, against the Gallina iteration maps instantiated with the same stand-ins. '
         'non-trivial = the call changed the stream or the kernel returned a value; distinct = distinct case hash')
 ASSUMPTIONS = C03.ASSUMPTIONS[:3] + [
     'vapour fraction met within solver resolution: flexsolve.IQ_interpolation contract, not proved (measured by oracle())',
     'iso-fugacity at the solver tolerance rather than at an exact fixed point: flexsolve.aitken contract, not proved here']
 TRUSTED = ['wrapper model coq/C03/Model.v hand-written from vle.py (as repaired by pending_fixes/C04_1..3); kernels coq/C04/Model.v hand-written from binary_phase_fraction.py / vle.py']
 
-KS = [0.5, 2., 1., 0.25, 4., 1.5, 0.75, 1e-16, 3.]
+KS = [0.5, 2., 1., 0.25, 4., 1.5, 0.75, 2. ** -40, 3.]
 ZS = [0.5, 0.25, 0.75, 0., 1., 0.125, 2.]
 
 def gen_cases(rng, tier):
@@ -27,7 +29,95 @@ def gen_cases(rng, tier):
     cases = [C03.gen_vle_case(rng) for _ in range(n_stub)]
     cases += [C03.gen_real_case(rng) for _ in range(n_real)]
     cases += [{'kind': 'rr2', 'z': [rng.choice(ZS), rng.choice(ZS)], 'K': [rng.choice(KS), rng.choice(KS)]} for _ in range(n_k)]
+    cases += [gen_iter_case(rng, 2) for _ in range(n_k)]
+    cases += [gen_iter_case(rng, rng.choice([1, 3, 4])) for _ in range(n_k)]
     return cases
+
+XS = [0.5, 0.25, 0.75, 0.125, 1., 0., -0.25, 2.]
+LS = [0., 0.5, -0.5, 1., -1., 2., 0.25]
+def gen_iter_case(rng, n):
+    """one application of xVlogK_iter_2n (n = 2) or xVlogK_iter with rational stand-ins for exp / log / gamma / phi"""
+    z = [rng.choice([0.5, 0.25, 0.125, 0.375, 1.]) for _ in range(n)]
+    if rng.random() < 0.6:
+        tot = sum(z); z = [v / tot for v in z] if tot in (1., 2., 0.5, 4.) else z
+    x = [rng.choice(XS) for _ in range(n)]
+    Vret = rng.choice([0.5, 0.25, 0., 1., 0.75, 0.125])
+    # The clips at 1e-16 leave the dyadic grid; the cases that reach them are kept well conditioned (no denominator or
+    # 1 + V (K - 1) whose sign / zero is decided by rounding), everything else stays exact.
+    if n == 2:
+        gam = [rng.choice([1., 0.5, 2.]), rng.choice([0., 0.5, 1.])]
+        phi = list(rng.choice([(1., 0.), (0.5, 0.), (2., 0.5), (1., -0.5), (2., -0.5), (0.5, -0.5), (1., -2.), (0.5, -1.)]))
+        if phi[1] < -0.5: x = [abs(v) for v in x]   # exact zero denominators only from exactly representable y
+    else:
+        gam = [rng.choice([1., 0.5, 2.]), rng.choice([0., 0.5, -0.5, 1.])]
+        phi = [rng.choice([1., 0.5, 2.]), rng.choice([0., 0.5, -1., -2.])]
+        if phi[1] < 0 or gam[1] < 0: Vret = rng.choice([0.25, 0.5, 0.75])
+    if any(v < 0 for v in x):
+        gam[1] = 0.; phi[1] = 0.
+    return {'kind': 'it2' if n == 2 else 'itn', 'n': n, 'z': z,
+            'x': x, 'V': rng.choice([0.5, 0.25, 0., 1., 1.5, -0.5, 0.75]),
+            'l': [rng.choice(LS) for _ in range(n)], 'pcf': [rng.choice([0.5, 1., 2., 4., 0.25]) for _ in range(n)],
+            'E': [rng.choice([1., 2., 0.5, 1.5]), rng.choice([1., 2., 4.])],      # exp l := (a + l) / b
+            'L': [rng.choice([0., 1., 0.5]), rng.choice([1., 2., 0.5])],            # log k := (k - c) / d
+            'gam': gam,                                                              # gamma_i := g0 + g1 x_i
+            'phi': phi,                                                              # phi_i := p0 + p1 y_i
+            'Vret': Vret}                   # what the Rachford-Rice solver returns (n != 2)
+
+class NpProxy:
+    def __init__(self, exp, log):
+        self.exp = exp; self.log = log
+    def __getattr__(self, name):
+        return getattr(np, name)
+
+def run_iter(case):
+    C03.env()
+    import types
+    import thermosteam.equilibrium.vle as vm
+    a, b = case['E']; c, d = case['L']; g0, g1 = case['gam']; p0, p1 = case['phi']
+    n = case['n']
+    saved = (vm.np, vm.xy, vm.binary)
+    real_binary = vm.binary
+    vm.np = NpProxy(lambda v: (a + v) / b, lambda v: (v - c) / d)
+    vm.xy = saved[1].py_func if hasattr(saved[1], 'py_func') else saved[1]
+    vm.binary = types.SimpleNamespace(
+        compute_phase_fraction_2N=real_binary.compute_phase_fraction_2N.py_func,
+        solve_phase_fraction_Rashford_Rice=lambda z, Ks, V, za, zb: case['Vret'])
+    f_gamma = lambda x, T: g0 + g1 * x
+    f_phi = lambda y, T, P: p0 + p1 * y
+    w = np.array(case['x'] + [case['V']] + case['l'], float)
+    try:
+        try:
+            if n == 2:
+                r = vm.xVlogK_iter_2n(w, np.array(case['pcf'], float), 350., 101325., np.array(case['z'], float),
+                                      f_gamma, (), f_phi, 2, None, None)
+            else:
+                r = vm.xVlogK_iter(w, np.array(case['pcf'], float), 350., 101325., np.array(case['z'], float), 0., 0.,
+                                   f_gamma, (), f_phi, n, None, None)
+            return {'w': [float(v) for v in r]}
+        except (FloatingPointError, ZeroDivisionError):
+            return {'w': None}
+    finally:
+        vm.np, vm.xy, vm.binary = saved
+
+def ill_conditioned(out):
+    """a denominator that is an exact zero in rational arithmetic but a rounding residue in floats (result ~ 1e15):
+    float rounding is not modelled, such cases are counted and not compared"""
+    return out['w'] is not None and max(abs(v) for v in out['w']) > 1e9
+
+def coq_iter(case, out):
+    if ill_conditioned(out): return 'true'
+    a, b = case['E']; c, d = case['L']; g0, g1 = case['gam']; p0, p1 = case['phi']
+    n = case['n']
+    E = f'(std_E {q(a)} {q(b)})'; L = f'(std_L {q(c)} {q(d)})'
+    if n == 2:
+        w = f'(mkw2 {q(case["x"][0])} {q(case["x"][1])} {q(case["V"])} {q(case["l"][0])} {q(case["l"][1])})'
+        exp = 'None' if out['w'] is None else '(Some (mkw2 ' + ' '.join(q(v) for v in out['w']) + '))'
+        return (f'(iter2n_check (iter2n {E} {L} (std_G2 {q(case["pcf"][0])} {q(case["pcf"][1])} {q(g0)} {q(g1)}) (std_P2 {q(p0)} {q(p1)}) '
+                f'{q(case["z"][0])} {q(case["z"][1])} {w}) {exp})')
+    w = f'(mkwn {qlist(case["x"])} {q(case["V"])} {qlist(case["l"])})'
+    exp = 'None' if out['w'] is None else f'(Some (mkwn {qlist(out["w"][:n])} {q(out["w"][n])} {qlist(out["w"][n + 1:])}))'
+    return (f'(itern_check (itern {E} {L} (std_Gn {qlist(case["pcf"])} {q(g0)} {q(g1)}) (std_Pn {q(p0)} {q(p1)}) '
+            f'(fun _ _ _ => {q(case["Vret"])}) {qlist(case["z"])} {w}) {exp})')
 
 def run_impl(case):
     if case['kind'] == 'rr2':
@@ -38,9 +128,13 @@ def run_impl(case):
             return {'V': float(v)}
         except (ZeroDivisionError, FloatingPointError):
             return {'V': None}
+    if case['kind'] in ('it2', 'itn'):
+        return run_iter(case)
     return C03.run_vle(case)
 
 def coq_case(case, out):
+    if case['kind'] in ('it2', 'itn'):
+        return coq_iter(case, out)
     if case['kind'] == 'rr2':
         z, K = case['z'], case['K']
         return f'(rr2_check {q(z[0])} {q(z[1])} {q(K[0])} {q(K[1])} {copt(out["V"], q)})'
@@ -56,15 +150,49 @@ def coq_show(case, out):
 
 def nontrivial(case, out):
     if case['kind'] == 'rr2': return out['V'] is not None
+    if case['kind'] in ('it2', 'itn'): return out['w'] is not None and not ill_conditioned(out)
     return C03.nontrivial(case, out) or (out['init']['T'], out['init']['P']) != (out['final']['T'], out['final']['P'])
 
 def classify(case, out):
     if case['kind'] == 'rr2': return ['rr2:' + ('value' if out['V'] is not None else 'zero-denominator')]
+    if case['kind'] in ('it2', 'itn'):
+        return [f'{case["kind"]}:n={case["n"]}:' + ('ill-conditioned (not compared)' if ill_conditioned(out) else 'value' if out['w'] is not None else 'arithmetic-error')]
     return C03.classify(case, out)
+
+def _flash(case, spec, scale=1., thermo=None):
+    """run the real code (real solvers) on the case's stream multiplied by scale; returns the stream or None if it raised"""
+    e = C03.env(); tmo = e['tmo']
+    s = tmo.MultiStream(None, T=case['T0'], P=case['P0'], phases=case['phases'], thermo=thermo or e['thermo'])
+    for ph in case['phases']:
+        s.imol[ph] = scale * np.array(case[ph], float)
+    kw = {}
+    for k, v in spec.items():
+        kw[k] = np.array(v) if isinstance(v, list) else (v * scale if k in 'HS' else v)
+    try:
+        s.vle(**kw)
+    except Exception:
+        return None
+    return s
+
+def _rows(s):
+    return np.array([C03.fl(r.to_array()) for ph, r in tuple(s.imol)], float)
+
+def raoult_rr(z, K):
+    """independent Rachford-Rice solution (bisection; the root is unique by C04_rr_unique)"""
+    f = lambda V: float(np.sum(z * (K - 1.) / (1. + V * (K - 1.))))
+    if f(0.) <= 0.: return 0.
+    if f(1.) >= 0.: return 1.
+    lo, hi = 0., 1.
+    for _ in range(200):
+        mid = 0.5 * (lo + hi)
+        if f(mid) > 0.: lo = mid
+        else: hi = mid
+    return 0.5 * (lo + hi)
 
 def oracle(case):
     """The property on the REAL code with the REAL solvers: specified T/P are the stream's T/P after the call;
-    a specified H / S is reproduced; a specified V is met."""
+    a specified H is reproduced; a specified V is met; multiplying the feed (and H, S) by a constant multiplies the
+    products by it; with the ideal package the T,P split equals an independent Raoult's-law Rachford-Rice solution."""
     if case['kind'] != 'vle': return None
     s = C03.build_stream(case)
     spec = C03.resolve_spec(case, s)
@@ -72,18 +200,57 @@ def oracle(case):
     if case['mode'] == 'stub' and sk[1] in 'HS':
         c2 = dict(case); c2['spec'] = dict(case['spec']); c2['spec'][sk[1]] = ['frac', 0.5]
         spec = C03.resolve_spec(c2, s)
-    kw = {k: (np.array(v) if isinstance(v, list) else v) for k, v in spec.items()}
-    if 'V' in kw and not 0. <= kw['V'] <= 1.: return None
-    try:
-        s.vle(**kw)
-    except Exception:
-        return None
+    if 'V' in spec and not 0. <= spec['V'] <= 1.: return None
+    s = _flash(case, spec)
+    if s is None: return None
     if 'T' in spec and s.T != spec['T']: return f'vle({sk}): specified T={spec["T"]} but the stream has T={s.T}'
     if 'P' in spec and s.P != spec['P']: return f'vle({sk}): specified P={spec["P"]} but the stream has P={s.P}'
-    if sk == 'PH' and abs(s.H - spec['H']) > 1e-6 * max(1., abs(spec['H'])) + 1e-6 * abs(s.F_mass):
+    has_volatile = any(case[ph][i] for ph in 'lg' for i in range(3))
+    # (without a volatile chemical VLE.__call__ catches NoEquilibrium and only stores P: outside the quantifier, see report)
+    if sk == 'PH' and has_volatile and abs(s.H - spec['H']) > 1e-6 * max(1., abs(spec['H'])) + 1e-6 * abs(s.F_mass):
         return f'vle(PH): specified H={spec["H"]} but the stream has H={s.H}'
-    if sk in ('PV', 'TV') and 0.02 < spec['V'] < 0.98 and (s.vle._N or 0) >= 2 and not s.vle._F_mol_light and not s.vle._F_mol_heavy:
-        if abs(s.vapor_fraction - spec['V']) > 1e-4: return f'vle({sk}): specified V={spec["V"]} but the stream has V={s.vapor_fraction}'
+    volatile_only = not any(case[ph][i] for ph in case['phases'] for i in range(3, 7))
+    if sk in ('PV', 'TV') and 0.02 < spec['V'] < 0.98 and (getattr(s.vle, '_N', 0) or 0) >= 2 and volatile_only:
+        vf_ = lambda st: float(np.sum(C03.fl(st.imol['g'].to_array()))) / float(np.sum(C03.fl(st.imol['g'].to_array())) + np.sum(C03.fl(st.imol['l'].to_array())))
+        V = vf_(s)
+        if abs(V - spec['V']) > 1e-4:
+            # "met at a T (P) within the solver's resolution (T_tol = 5e-8 K, P_tol = 1 Pa) of the point where V equals the specification":
+            # the equilibrium vapour fraction one resolution step to either side must bracket the specification
+            d = 1. if sk == 'TV' else 5e-8
+            lo = _flash(case, {'T': s.T - (0 if sk == 'TV' else d), 'P': s.P + (d if sk == 'TV' else 0)})
+            hi = _flash(case, {'T': s.T + (0 if sk == 'TV' else d), 'P': s.P - (d if sk == 'TV' else 0)})
+            if lo is None or hi is None or not (min(vf_(lo), vf_(hi)) - 1e-6 <= spec['V'] <= max(vf_(lo), vf_(hi)) + 1e-6):
+                return f'vle({sk}): specified V={spec["V"]} but the stream has V={V} and the specification is not bracketed within the solver resolution'
+    # scaling
+    if sk[1] not in 'xy':
+        k = 4.
+        s4 = _flash(case, spec, scale=k)
+        if s4 is None: return f'vle({sk}) scaling: the flash of the feed multiplied by {k} raised'
+        a, b = _rows(s) * k, _rows(s4)
+        tol = 1e-6 * max(1., float(np.abs(a).max()))
+        if np.abs(a - b).max() > tol or abs(s4.T - s.T) > 1e-6 * s.T or abs(s4.P - s.P) > 1e-6 * s.P:
+            return (f'vle({sk}) scaling: feed x{k} does not give products x{k}: max flow difference {float(np.abs(a - b).max())}, '
+                    f'T {s.T} vs {s4.T}, P {s.P} vs {s4.P}')
+    # ideal package against an independent Raoult / Rachford-Rice flash
+    if sk == 'TP' and volatile_only:
+        e = C03.env()
+        if 'ideal' not in e: e['ideal'] = e['thermo'].ideal()
+        si = _flash(case, spec, thermo=e['ideal'])
+        if si is not None:
+            tot = np.array(case['l'][:3]) + np.array(case['g'][:3])
+            F = tot.sum()
+            if F > 0:
+                chems = e['ideal'].chemicals.tuple[:3]
+                K = np.array([float(c.Psat(spec['T'])) for c in chems]) / spec['P']
+                present = tot > 0
+                z = tot[present] / F
+                V = raoult_rr(z, K[present])
+                v = np.zeros(3); v[present] = F * z * K[present] * V / (1. + V * (K[present] - 1.))
+                got = np.array(C03.fl(si.imol['g'].to_array())[:3])
+                if present.sum() == 1:
+                    return None    # one chemical: the phase rule leaves the split at Psat undetermined
+                if np.abs(got - v).max() > 1e-4 * max(1., F):
+                    return f'vle(TP) ideal package: vapour flows {got.tolist()} differ from the Raoult Rachford-Rice solution {v.tolist()}'
     return None
 
 def finding_key(case, msg):
